@@ -404,7 +404,16 @@ func cfgFile() impl.Cfg {
 func finish(w *world, extra func()) conc.Outcome {
 	verifrt.SnapHook = nil
 	if extra != nil {
-		extra()
+		// the monitors probe the real server (TryLock / Unlock); a server that panics in a probe has
+		// corrupted its own capacity accounting: that is the finding, not the end of the stream
+		func() {
+			defer func() {
+				if r := recover(); r != nil {
+					w.v("conc:capacity:free-units:probe-panicked", "after all calls returned, a probe of the server (TryLock/Unlock from a fresh session) panicked: %v", r)
+				}
+			}()
+			extra()
+		}()
 	}
 	key := w.summary()
 	det := map[string]any{"calls": w.calls}
@@ -776,6 +785,36 @@ func templates() []template {
 				},
 			}
 		}},
+		{name: "shutdown||unlock||trylock(state file)", props: []string{"C11"}, bound: 2, prog: func(t *testing.T) conc.Program {
+			// main.go's shutdown sequence (SetShuttingDown; the network closer ends the sessions; the lock
+			// server's closer) racing with requests still in flight: what the state file says afterwards
+			return conc.Program{
+				Setup: func() any {
+					w := newWorld(t, cfgFile(), "s1", "s2")
+					w.mustTry("s1", "x", nil, nil, "h1")
+					w.mustTry("s2", "y", nil, p32(60), "h2")
+					w.mustTry("s1", "z", p32(2), nil, "h3")
+					return w
+				},
+				Threads: []conc.Thread{
+					{Name: "S", Run: func(c any) {
+						w := c.(*world)
+						w.ls.SetShuttingDown()
+						w.disconnect("S", "s1") // the network layer going down ends every session
+						w.disconnect("S", "s2")
+						cl := w.closer
+						w.closer = nil
+						cl()
+					}},
+					{Name: "U", Run: func(c any) { c.(*world).unlock("U", "s1", "x", "h1") }},
+					{Name: "T", Run: func(c any) { c.(*world).tryLock("T", "s2", "z", p32(2), nil, "t") }},
+				},
+				Finish: func(c any) conc.Outcome {
+					w := c.(*world)
+					return finish(w, func() { shutdownFileMonitor(w) })
+				},
+			}
+		}},
 		{name: "expiry||trylock (crash images)", props: []string{"C09", "C01"}, bound: 2, prog: func(t *testing.T) conc.Program {
 			return conc.Program{
 				Setup: func() any {
@@ -1114,6 +1153,49 @@ func (w *world) pretty(nk string) string {
 	return nk[:i] + "/" + w.label(nk[i+1:])
 }
 
+// shutdownFileMonitor: after a graceful shutdown the state file records every hold that was
+// acknowledged and whose release was not acknowledged (unlocked=true), and nothing whose release was.
+func shutdownFileMonitor(w *world) {
+	b, err := os.ReadFile(w.statePath)
+	if err != nil {
+		w.v("conc:shutdown:file-unreadable", "state file after shutdown: %v", err)
+		return
+	}
+	m, es := decodeImage(w, b)
+	if es != "" {
+		w.v("conc:shutdown:file-unloadable", "the state file left by the shutdown does not load: %s", es)
+		return
+	}
+	in := map[string]bool{}
+	for _, ls := range m {
+		for _, l := range ls {
+			in[l.Name()+"/"+l.Key()] = true
+		}
+	}
+	released := map[string]bool{}
+	for _, c := range w.calls {
+		if c.Kind == "unlock" && c.Done && c.Ok {
+			released[c.Name+"/"+c.Key] = true
+		}
+	}
+	type hd struct{ name, label string }
+	live := []hd{{"x", "h1"}, {"y", "h2"}, {"z", "h3"}}
+	for _, c := range w.calls {
+		if (c.Kind == "trylock" || c.Kind == "lock") && c.Done && c.Ok && c.Thread != "setup" {
+			live = append(live, hd{c.Name, w.label(c.Key)})
+		}
+	}
+	for _, h := range live {
+		k := h.name + "/" + w.keys[h.label]
+		switch {
+		case released[k] && in[k]:
+			w.v("conc:shutdown:released-hold-in-file", "hold %s of %q was released (unlocked=true acknowledged) but the state file left by the shutdown records it", h.label, h.name)
+		case !released[k] && !in[k]:
+			w.v("conc:shutdown:live-hold-not-in-file", "hold %s of %q was granted and never acknowledged released, but the state file left by the graceful shutdown does not record it: the next start will not restore it", h.label, h.name)
+		}
+	}
+}
+
 func decodeImage(w *world, b []byte) (m map[string][]cl.Lock, errs string) {
 	defer func() {
 		if r := recover(); r != nil {
@@ -1266,6 +1348,8 @@ func relevant(prop, sig string) bool {
 		return strings.HasPrefix(sig, "conc:session-end")
 	case "C09":
 		return strings.HasPrefix(sig, "conc:crash")
+	case "C11":
+		return strings.HasPrefix(sig, "conc:shutdown")
 	case "C13":
 		return strings.HasPrefix(sig, "conc:gc") || strings.HasPrefix(sig, "conc:capacity")
 	}
